@@ -54,7 +54,7 @@ def plan(tier, gen):
     """(request budget, death budget, deviation bound) of a burst in generation `gen`."""
     if tier == 'quick':
         return {1: (1, 1, 2)}.get(gen, (1, 0, 1))
-    return {1: (1, 1, 2), 2: (1, 1, 1)}.get(gen, (1, 0, 1))
+    return {1: (1, 1, 2), 2: (1, 1, 2)}.get(gen, (1, 0, 1))
 
 
 def bound(tier, scn, gen=1):
